@@ -28,8 +28,8 @@ impl Property for C05 {
     }
     fn strategy(tier: Tier) -> BoxedStrategy<Case> {
         match tier {
-            Tier::Quick => case_strategy(8, 0.2),
-            Tier::Thorough => case_strategy(12, 0.2),
+            Tier::Quick => case_strategy(12, 0.2),
+            Tier::Thorough => case_strategy(18, 0.2),
         }
     }
     fn fixed_cases(_tier: Tier) -> Vec<Case> {
